@@ -7,7 +7,7 @@ from props import fam_sym
 
 MANIFEST = dict(
     technique='Coq proof of the symmetry law of the direct sum (isotropic and anisotropic weights) and of its consequences (absent reflections zero, Friedel) for every tabulated group (abstract character, permutation of the group by left multiplication checked by the kernel per row) + textbook-sum / symmetry / R-factor oracles on gemmi',
-    text='The FFT-vs-direct oracle includes anomalous addends (IT92) and small cells in which one atom spans more than half a cell edge. CONSEQUENCES PROVED (Sfc/SfConseq.v, Sfc/SfAniso.v): (1) the symmetry law also holds when the weight of an image depends on the image through the index rotated into its frame, i.e. with ANISOTROPIC Debye-Waller factors exactly as calculate_sf_from_atom_sf evaluates them (any weight function of rot(g)^T h); (2) SYSTEMATICALLY ABSENT REFLECTIONS ARE ZERO: for every tabulated group and every reflection that is_systematically_absent flags (screw/glide and centring, the latter by a kernel-checked permutation of the operation list under each centring vector) the direct sum is 0, in any field with a faithful character; (3) FRIEDEL: with real weights F(-h) = conj F(h). Theorems: for every group of the table regenerated from /repo, every rotation part R, every hkl, every rational position and every weight, the sum over all symmetry images satisfies F(hR) = F(h) exp(-2 pi i h.t) (in any commutative ring with a character of period 24d; the re-indexing g -> R*g is a permutation of the operation list, kernel-checked for all 564 rows); the anisotropic image factor identity (hR)^T U (hR) = h^T (R U R^T) h. Oracles on gemmi: calculate_sf_from_model / _from_small_structure equal an independent long-double textbook sum (occupancy x form factor x iso/aniso DWF x phase over all images) for random structures incl. special positions, partial occupancies, ions, three tables; symmetry-equivalent reflections, Friedel mates, systematic absences checked on gemmi outputs; two ions of one element with different charges get their own form factors; FFT route (DensityCalculator + transform_map_to_f_phi) vs direct: R < 1% at default settings and not growing when rate/cutoff are refined.',
+    text='THE FORM-FACTOR CACHE (Sfc/SfCache.v, a model of set_stol2_and_scattering_factors + get_scattering_factor with an abstract value type): for any sequence of calls made for one reflection - any elements and charges in any order - every call returns the value of its own (element, charge), table value plus addend, and the cache only holds neutral values (the snapshot logic is refuted by Fe then Fe3+); compared with the code on generated call histories (real StructureFactorCalculator<IT92>, returned value bit-identical to the table value plus addend, and the occupancy of the private cache after every call). The direct-sum oracle sets per-element addends (always when ions are present). The FFT-vs-direct oracle includes anomalous addends (IT92) and small cells in which one atom spans more than half a cell edge. CONSEQUENCES PROVED (Sfc/SfConseq.v, Sfc/SfAniso.v): (1) the symmetry law also holds when the weight of an image depends on the image through the index rotated into its frame, i.e. with ANISOTROPIC Debye-Waller factors exactly as calculate_sf_from_atom_sf evaluates them (any weight function of rot(g)^T h); (2) SYSTEMATICALLY ABSENT REFLECTIONS ARE ZERO: for every tabulated group and every reflection that is_systematically_absent flags (screw/glide and centring, the latter by a kernel-checked permutation of the operation list under each centring vector) the direct sum is 0, in any field with a faithful character; (3) FRIEDEL: with real weights F(-h) = conj F(h). Theorems: for every group of the table regenerated from /repo, every rotation part R, every hkl, every rational position and every weight, the sum over all symmetry images satisfies F(hR) = F(h) exp(-2 pi i h.t) (in any commutative ring with a character of period 24d; the re-indexing g -> R*g is a permutation of the operation list, kernel-checked for all 564 rows); the anisotropic image factor identity (hR)^T U (hR) = h^T (R U R^T) h. Oracles on gemmi: calculate_sf_from_model / _from_small_structure equal an independent long-double textbook sum (occupancy x form factor x iso/aniso DWF x phase over all images) for random structures incl. special positions, partial occupancies, ions, three tables; symmetry-equivalent reflections, Friedel mates, systematic absences checked on gemmi outputs; two ions of one element with different charges get their own form factors; FFT route (DensityCalculator + transform_map_to_f_phi) vs direct: R < 1% at default settings and not growing when rate/cutoff are refined.',
     note='Trusted: Coq kernel + vm_compute; translator; harness (long double reference sum using gemmi form-factor tables, which are property C16). No axioms. The numerical agreement of the C++ sum with the textbook sum and the FFT accuracy are oracle-only (libm, float).')
 
 
@@ -15,7 +15,7 @@ def run(chk):
     quick = chk.tier == 'quick'
     rng = random.Random(chk.seed)
     F.gen_tables()
-    chk.trusted += ['translator gen/dump_sg.cpp', 'harness/h_sfc.cpp: independent textbook sum in long double']
+    chk.trusted += ['translator gen/dump_sg.cpp', 'harness/h_sfc.cpp: independent textbook sum in long double', 'extraction (ExtrOcamlBasic only) + extract/sfc_drv.ml (symbolic replay of the cache model)']
     chk.assumptions += ['tolerances: 1e-8 relative for direct sums, R-factor < 0.01 for the FFT route at default settings']
     proved = chk.prove(timeout=3000)
     h = F.harness()
@@ -37,7 +37,22 @@ def run(chk):
         # small cells: the density of one atom spans more than half a cell edge (periodic wrap-around of the box)
         lines.append('o_fft\t%d %d %d %d %d %d' % (i, seed + 7, rng.randint(1, 3), rng.randint(0, 1), rng.choice([0, 0, 1]),
                                                    rng.choice([50, 60, 75])))
-    res = vlib.correspond(chk, h, None, lines, timeout=3000)
+    # the per-element form-factor cache: call histories of (element, charge) for one reflection, with and without
+    # IT92::ignore_charge, neutral atoms and ions of one element in every order, repeated calls
+    ions = [(26, 2), (26, 3), (8, -1), (20, 2), (30, 2), (16, 0), (6, 0), (7, 0), (26, 0), (8, 0), (20, 0), (30, 0), (11, 1), (17, -1),
+            (1, -1), (1, 0), (25, 2), (25, 3), (25, 4), (25, 0), (6, 5), (8, 7)]
+    for _ in range(300 if quick else 20000):
+        calls = [rng.choice(ions) for _ in range(rng.randint(1, 10))]
+        if rng.random() < 0.5:     # concentrate on one element: neutral and ions interleaved
+            z = rng.choice([26, 25, 8, 20])
+            calls = [(z, rng.choice([0, 0, 2, 3, -1, 1])) for _ in range(rng.randint(2, 8))]
+        lines.append('sfseq\t0 %d %d %s' % (rng.choice([0, 0, 1]), rng.choice([0, 1, 25, 100, 250, 900]),
+                                             ' '.join('%d:%d' % c for c in calls)))
+    res = vlib.correspond(chk, h, F.driver(), lines, timeout=3000)
+    for (cmd, args, impl, model) in res['mismatches']:
+        chk.violate('correspondence', 'form-factor cache model disagrees with gemmi on ' + cmd + ' ' + args,
+                    'impl=%s model=%s (T = the call returned the value of its own element and charge; after the colon: filled cache slots)' % (impl[:300], model[:300]),
+                    replay={'harness': 'h_sfc', 'line': cmd + '\t' + args}, found_input='F' in impl)
     for l in res['outputs']:
         p = l.split('\t')
         if len(p) == 3:
@@ -49,7 +64,7 @@ def run(chk):
                     replay={'harness': 'h_sfc', 'line': cmd + '\t' + args})
     for (line, kind, err) in res['crashes']:
         chk.violate('crash', 'h_sfc %s on %s' % (kind, line), err, replay={'harness': 'h_sfc', 'line': line})
-    chk.rule = ('random structures (1-12 atoms, 10 elements, iso/aniso, partial occupancies, special positions, ions) in a spread of rows covering all '
+    chk.rule = ('sfseq: call histories of (element, charge) through get_scattering_factor vs the cache model (value identity + cache occupancy); random structures (1-12 atoms, 10 elements, iso/aniso, partial occupancies, special positions, ions) in a spread of rows covering all '
                 'crystal systems: direct sum vs textbook sum on every hkl of a cube, symmetry/Friedel/absence relations, small-structure path, '
                 'per-ion form factors, FFT-route R-factors for three tables. non-trivial = not skipped')
     if not proved:
